@@ -51,6 +51,11 @@ def body_lines(b):
                 v, rule = "[%s]" % p["vn"], ""
             elif vk == "enum":
                 v, rule = '"x"', " // {enum: %s}" % p["vn"]
+            elif vk == "nobj":
+                lines.append('  "%s": { // {allOf: "%s"}' % (p["key"], p["vn"]))
+                lines.append('    "nk": 1')
+                lines.append('  }' + comma)
+                continue
             else:
                 raise ValueError(vk)
             lines.append('  "%s": %s%s%s' % (p["key"], v, comma, rule))
@@ -405,8 +410,11 @@ def child_view(c):
     if tt == "array":
         items = c.get("children") or []
         scalar = items[0].get("type", "") if items else ""
+    kids = []
+    if tt == "object":
+        kids = [[k.get("key", ""), k.get("inheritedFrom", "")] for k in (c.get("children") or [])]
     return {"key": c.get("key", ""), "tt": tt, "type": c.get("type", ""), "scalar": scalar,
-            "inh": c.get("inheritedFrom", "")}
+            "inh": c.get("inheritedFrom", ""), "kids": kids}
 
 
 def sv_content(notation, c):
